@@ -139,6 +139,20 @@ pub fn c07(o: &Opts) -> Outcome {
                 }
             }
         }
+        // text rendering at the largest k: lines of k letters, a tab and a count of one, two or three digits
+        for k in [28usize, 29, 30, 31] {
+            let mut r2 = Rng(o.seed.wrapping_mul(0x2545F4914F6CDD1D) | 9);
+            let base = random_seq(&mut r2, 60, 0);
+            let mut recs: Vec<Vec<u8>> = (0..120).map(|_| base.clone()).collect();
+            recs.push(random_seq(&mut r2, 80, 0));
+            for acgt in [true, false] {
+                cases += 1;
+                if let Some(mut w) = c07_one(&recs, k, 3, 6.0, acgt) {
+                    for kv in w.iter_mut() { if kv.0 == "records" { kv.1 = format!("<120 copies of one random 60-base record and one of 80 bases, seed {}>", o.seed); } }
+                    return Outcome { cases, witness: Some(w) };
+                }
+            }
+        }
         // multi-member gzip input: every member is counted
         {
             let recs: Vec<Vec<u8>> = vec![b"ACGGTCATTGACCAGTTAGG".to_vec(), b"TTGACCATGGCATTAG".to_vec(), b"ACGGTCATTGACC".to_vec(), b"GGGGGGGGGGGGG".to_vec(), b"AC".to_vec()];
